@@ -141,7 +141,6 @@ def multiLoop (e : IEnv) (k : Nat) : List Bytes → Nat → AStack → R
           | .ok (st, cs) => .ok (st, c :: cs)
           | .error er => .error er
         | .ok (st, none) => multiLoop e k rest nSat st
-termination_by keysRev => keysRev.length
 
 /-- `Terminal::Multi` -/
 def evalMulti (e : IEnv) (k : Nat) (keys : List Bytes) (st : AStack) : R :=
